@@ -300,9 +300,14 @@ def finish(mod, pid, tier, seed, results, lost, wall):
             minimum = minimum.get(tier, 1)
         if counters.get(name, 0) < minimum:
             inconclusive.append(f'monitor counter {name}={counters.get(name, 0)} < {minimum}')
-    for name, v in reach_out.items():
-        if v['calls'] == 0 and name not in getattr(mod, 'ANCHORS_OPTIONAL', ()):
-            inconclusive.append(f'anchored function never entered: {name}')
+    # Reach of the anchored functions is evidence about the workload, not the oracle: the verdict comes from
+    # the boundary monitors (REQUIRE counters above).  A single anchor that is no longer entered - renamed,
+    # inlined or bypassed by a restructuring that keeps the property - is reported, not judged; only when most
+    # of the anchored code is out of reach does the run say nothing about the property.
+    not_entered = [name for name, v in reach_out.items()
+                   if v['calls'] == 0 and name not in getattr(mod, 'ANCHORS_OPTIONAL', ())]
+    if reach_out and len(not_entered) * 2 > len(reach_out):
+        inconclusive.append('most anchored functions never entered: ' + ', '.join(not_entered))
     if len(nontrivial) < 2:
         inconclusive.append('fewer than two distinct non-trivial cases')
 
@@ -345,6 +350,7 @@ def finish(mod, pid, tier, seed, results, lost, wall):
         'verdict': {0: 'held on everything explored', 1: 'violated',
                     2: 'inconclusive'}[status],
         'inconclusive_reasons': inconclusive,
+        'anchored_functions_not_entered': not_entered,
         'shards': len(results) + len(lost),
         'exhaustive': bool(getattr(mod, 'EXHAUSTIVE', {}).get(tier, False)) and not truncated,
         'truncated_by_time_limit': truncated,
@@ -373,6 +379,8 @@ def finish(mod, pid, tier, seed, results, lost, wall):
         print(f'    {k} = {v}')
     for name, v in reach_out.items():
         print(f'    reach {name}: calls={v["calls"]} lines={v["lines_hit"]}/{v["lines_total"]}')
+    for name in not_entered:
+        print(f'    note: anchored function not entered by this run: {name}')
     for m in sorted(known_hits):
         if m in known:
             print(f'KNOWN-FINDING: property={pid} {m}: {known[m]["description"]} '
